@@ -1249,6 +1249,69 @@ theorem C15_complex_redefining_position (tc fileStrict : Bool) (ps₁ ps₂ : Li
     rw [loopReadTC_clean hs (hp₁ p (by simp)), foldl_partAttrSevL_clean hs ps (fun x hx => hp₁ x (by simp [hx])), hat,
       foldl_partAttrSevL_clean hs ps₂ hp₂, greater_null_left, mergeAttr_null_left]
 
+theorem partAttrSevL_attrs (strict : Bool) : ∀ (as : List AttrD) (ts : List Tok) (acc : Sev),
+    partAttrSevL true strict acc (as.map Slot.attr) ts = partAttrSev strict acc as ts
+  | [], _, _ => by simp [partAttrSevL, partAttrSev]
+  | _ :: _, [], _ => by simp [partAttrSevL, partAttrSev]
+  | a :: as, t :: ts, acc => by
+    simp only [List.map_cons, partAttrSevL, partAttrSev]
+    exact partAttrSevL_attrs strict as ts _
+
+/-- on parts WITHOUT redefining entries, in the technical-corrigendum encoding, the model with the loop is the model all the
+    complex-instance theorems above are about (`complexReadS`): severity and values, whatever the shape -/
+theorem C15_complex_loop_agrees (S : CxShape) (strict : Bool) (ps : List (List AttrD × List Tok))
+    (hlen : ∀ p ∈ ps, p.1.length = p.2.length) :
+    complexReadLS S true strict (ps.map (fun p => (p.1.map Slot.attr, p.2))) = complexReadS S strict ps := by
+  have hpart : ∀ p ∈ ps, loopReadTC true (partStrict strict) (p.1.map Slot.attr) p.2 = instRead (partStrict strict) p.1 p.2 := by
+    intro p hp
+    simp only [loopReadTC, if_true]
+    exact C15_loop_without_redefining _ p.1 p.2 (hlen p hp)
+  have hvals : (ps.map (fun p => (p.1.map Slot.attr, p.2))).map (fun p => loopReadTC true (partStrict strict) p.1 p.2)
+      = ps.map (fun p => instRead (partStrict strict) p.1 p.2) := by
+    rw [List.map_map]
+    apply List.map_congr_left
+    intro p hp; exact hpart p hp
+  unfold complexReadLS complexReadS
+  rw [hvals]
+  congr 1
+  cases ps with
+  | nil => rfl
+  | cons h rest =>
+    have hh := hpart h (by simp)
+    have hrest : ∀ p ∈ rest, loopReadTC true (partStrict strict) (p.1.map Slot.attr) p.2 = instRead (partStrict strict) p.1 p.2 :=
+      fun p hp => hpart p (by simp [hp])
+    simp only [List.map_cons]
+    rw [hh]
+    obtain ⟨m, rp⟩ := S
+    cases m with
+    | none => rfl
+    | all =>
+      simp only [List.foldl_map]
+      congr 1
+      -- the two folds agree step by step
+      have : ∀ (l : List (List AttrD × List Tok)) (acc : Sev), (∀ p ∈ l, p ∈ rest) →
+          l.foldl (fun acc p => Sev.greater acc (loopReadTC true (partStrict strict) (p.1.map Slot.attr) p.2).1) acc =
+          l.foldl (fun acc p => Sev.greater acc (instRead (partStrict strict) p.1 p.2).1) acc := by
+        intro l
+        induction l with
+        | nil => intro _ _; rfl
+        | cons q qs ih =>
+          intro acc hm
+          simp only [List.foldl_cons]
+          rw [hrest q (hm q (by simp))]
+          exact ih _ (fun p hp => hm p (by simp [hp]))
+      exact this rest _ (fun _ h => h)
+    | nonDerivedAttrs =>
+      simp only [List.foldl_map]
+      have : ∀ (l : List (List AttrD × List Tok)) (acc : Sev),
+          l.foldl (fun acc p => partAttrSevL true (partStrict strict) acc (p.1.map Slot.attr) p.2) acc =
+          l.foldl (fun acc p => partAttrSev (partStrict strict) acc p.1 p.2) acc := by
+        intro l
+        induction l with
+        | nil => intro _; rfl
+        | cons q qs ih => intro acc; simp only [List.foldl_cons]; rw [partAttrSevL_attrs]; exact ih _
+      rw [this rest .null]
+
 /-- the experiment's instance `(CA(5)CB(6)CR(7))`, CA = [redefining cr.n, x : INTEGER]: conforming in both encodings (`CA(5)` /
     `CA(*,5)`); `CA($)` is INCOMPLETE in strict mode in both encodings (in the older one the `$` stands at the redefining entry), and a
     user message with 0 substituted in lenient mode (technical-corrigendum encoding) -/
